@@ -14,22 +14,22 @@ import (
 // Report is what every sub-command writes to <out>/<id>.json; the Python driver combines it
 // with the result of evaluating the Coq case file.
 type Report struct {
-	Property   string                 `json:"property"`
-	Seed       int64                  `json:"seed"`
-	Tier       string                 `json:"tier"`
-	Cases      int                    `json:"cases"`
-	Nontrivial int                    `json:"distinct_nontrivial"`
-	Rule       string                 `json:"rule"`
-	Dist       map[string]int         `json:"distribution"`
-	Samples    []interface{}          `json:"samples"`
+	Property   string         `json:"property"`
+	Seed       int64          `json:"seed"`
+	Tier       string         `json:"tier"`
+	Cases      int            `json:"cases"`
+	Nontrivial int            `json:"distinct_nontrivial"`
+	Rule       string         `json:"rule"`
+	Dist       map[string]int `json:"distribution"`
+	Samples    []interface{}  `json:"samples"`
 	// failures of direct property oracles on the implementation
-	OracleFailures []OracleFailure     `json:"oracle_failures"`
-	CoqCases       []string            `json:"coq_case_files"`
+	OracleFailures []OracleFailure        `json:"oracle_failures"`
+	CoqCases       []string               `json:"coq_case_files"`
 	Extra          map[string]interface{} `json:"extra,omitempty"`
 }
 
 type OracleFailure struct {
-	Tag    string      `json:"tag"`    // cause tag; "" when unexplained
+	Tag    string      `json:"tag"` // cause tag; "" when unexplained
 	What   string      `json:"what"`
 	Replay interface{} `json:"replay"` // concrete input / history
 }
@@ -45,8 +45,8 @@ type Ctx struct {
 	nontr map[string]bool
 }
 
-func (c *Ctx) Thorough() bool { return c.Tier == "thorough" }
-func (c *Ctx) Count(k string) { c.Rep.Dist[k]++ }
+func (c *Ctx) Thorough() bool        { return c.Tier == "thorough" }
+func (c *Ctx) Count(k string)        { c.Rep.Dist[k]++ }
 func (c *Ctx) Nontrivial(key string) { c.nontr[key] = true }
 func (c *Ctx) Sample(s interface{}) {
 	if len(c.Rep.Samples) < 6 {
@@ -101,7 +101,7 @@ func main() {
 	mustNoErr(os.MkdirAll(*out, 0755))
 	mustNoErr(os.MkdirAll(*work, 0755))
 	c := &Ctx{ID: strings.ToUpper(id), Seed: *seed, Tier: *tier, Out: *out, Work: *work,
-		Rep: &Report{Property: strings.ToUpper(id), Seed: *seed, Tier: *tier, Dist: map[string]int{}, OracleFailures: []OracleFailure{}, Extra: map[string]interface{}{}},
+		Rep:   &Report{Property: strings.ToUpper(id), Seed: *seed, Tier: *tier, Dist: map[string]int{}, OracleFailures: []OracleFailure{}, Extra: map[string]interface{}{}},
 		nontr: map[string]bool{}}
 	cmd(c)
 	c.Rep.Nontrivial = len(c.nontr)
@@ -110,7 +110,7 @@ func main() {
 }
 
 // ---- helpers to print Coq literals
-func coqStr(s string) string  { return "\"" + strings.ReplaceAll(s, "\"", "\"\"") + "\"" }
+func coqStr(s string) string { return "\"" + strings.ReplaceAll(s, "\"", "\"\"") + "\"" }
 func coqBool(b bool) string {
 	if b {
 		return "true"
